@@ -156,6 +156,20 @@ def boundary_pairs(thorough: bool):
     # two copies whose order is swapped in the target.  (The gap is kept small on purpose: the Rust encoder
     # uses Myers' O(N*D) diff without a deadline and needs ~110 s for a 70 000-byte gap.)
     out.append(("two-copies", ("cat", mark, ("zeros", 1000), ("cyc", 400, 99)), ("cat", ("cyc", 400, 99), mark)))
+    # a length-changing edit inside a long repeated region with distinct bytes on both sides (head and
+    # tail of base and target overlap when trimmed independently), below and above 32 KiB / 64 KiB
+    for n in (100, 16384, 40000) + ((65536, 70000) if thorough else ()):
+        for head, tail in ((b"ab", b"cd"), (b"", b"cd"), (b"ab", b"")):
+            big = ("cat", head, ("zeros", n), tail)
+            for d in (1, 2):
+                small = ("cat", head, ("zeros", n - d), tail)
+                out.append(("repeat-%d-shrink-%d" % (n, d), big, small))
+                out.append(("repeat-%d-grow-%d" % (n, d), small, big))
+    # one of two identical adjacent lines removed / duplicated in a text of > 32 KiB
+    line = b"the same line again and again\n"
+    body = ("cyc", 33000, 13)
+    out.append(("dup-line-removed", ("cat", body, line, line, b"end\n"), ("cat", body, line, b"end\n")))
+    out.append(("dup-line-added", ("cat", body, line, b"end\n"), ("cat", body, line, line, b"end\n")))
     return out
 
 
